@@ -127,6 +127,25 @@ class C09(MonitorCheck):
                         continue
                     if refrel.strip(r) == refrel.strip(q):
                         continue
+                    if q[0] == 'W' and kind == 'sub':
+                        # a use-site projection is not a type of its own: only a projection
+                        # of the same direction with a contained bound is below it
+                        obl['subtype-of-query'] += 1
+                        ok = None
+                        if r[0] != 'W':
+                            ok = False
+                        elif q[2] is not None and r[2] is not None and r[1] == q[1]:
+                            ok = refrel.sub3(r[2], q[2], tb) if q[1] == refrel.COV else \
+                                refrel.sub3(q[2], r[2], tb)
+                        if ok is False:
+                            sig = 'not-a-subtype|%s|projection-query|%s' % (
+                                name, 'plain-result' if r[0] != 'W' else 'projection-result')
+                            if sig not in v:
+                                v[sig] = {'rule': 'not-a-subtype', 'sig': sig,
+                                          'detail': '%s(%s) returned %s, which is not below the '
+                                                    'projection (called from %s) [lang=%s]' % (
+                                                        name, tstr(q), tstr(r), caller, lang)}
+                        continue
                     obl['subtype-of-query'] += 1
                     ok = refrel.sub3(r, q, tb) if kind == 'sub' else refrel.sub3(q, r, tb)
                     if ok is None:
